@@ -87,9 +87,22 @@ def _all(stmts):
 # ---------------------------------------------------------------------------------------------------------------------------
 
 def inline_void_helpers(f, funcs, recorded_funcs):
-    """calls `helper(args);` of functions of the same program that the confirmed tree does not have, whose body has no return with a
-    value: replaced by  { T p = arg; ... body ... }  with the helper's names made unique"""
+    """calls of functions of the same program that the confirmed tree does not have are expanded in place, the helper's names made
+    unique:  `helper(args);`  with no value returned becomes  { T p = arg; ... body ... };  `x = helper(args);` / `T x = helper(args);`
+    of a helper whose only return is its last statement becomes  { T p = arg; ... body ...; x = <returned expression>; }.
+    A parameter that receives `&v` of a local v and is only ever dereferenced is v itself (`*p` -> `v`)."""
     done = 0
+
+    def call_of(st):
+        """(call, kind) when the statement is a bare call, or initialises / assigns a plain variable from a call"""
+        if isinstance(st, C.CExpr) and isinstance(st.expr, ast.Call) and isinstance(st.expr.func, ast.Name):
+            return st.expr, 'void'
+        if isinstance(st, C.CDecl) and isinstance(st.init, ast.Call) and isinstance(st.init.func, ast.Name) and not st.array:
+            return st.init, 'value'
+        if isinstance(st, C.CAssign) and st.op == '=' and isinstance(st.target, ast.Name) and isinstance(st.value, ast.Call) and isinstance(st.value.func, ast.Name):
+            return st.value, 'value'
+        return None, None
+
     for _round in range(8):
         changed = False
 
@@ -101,31 +114,55 @@ def inline_void_helpers(f, funcs, recorded_funcs):
                     st.body = expand(st.body)
                 elif isinstance(st, C.CIf):
                     st.body, st.orelse = expand(st.body), expand(st.orelse)
-                if isinstance(st, C.CExpr) and isinstance(st.expr, ast.Call) and isinstance(st.expr.func, ast.Name):
-                    h = funcs.get(st.expr.func.id)
-                    if h is not None and h is not f and h.name not in recorded_funcs and len(h.params) == len(st.expr.args) and \
-                            not any(isinstance(x, C.CReturn) and x.value is not None for x in h.walk()) and \
-                            not any(isinstance(x, C.CReturn) for x in h.walk() if x not in h.body[-1:]):
+                call, kind = call_of(st)
+                h = funcs.get(call.func.id) if call is not None else None
+                if h is not None and h is not f and h.name not in recorded_funcs and len(h.params) == len(call.args) and \
+                        not any(isinstance(x, C.CReturn) for x in h.walk() if x not in h.body[-1:]):
+                    ret = h.body[-1] if h.body and isinstance(h.body[-1], C.CReturn) else None
+                    has_value = ret is not None and ret.value is not None
+                    if (kind == 'void' and not has_value) or (kind == 'value' and has_value):
                         done += 1
                         changed = True
                         tag = '_%s%d' % (h.name, done)
                         names = {pn for _, pn in h.params} | {x.name for x in h.walk() if isinstance(x, C.CDecl)}
                         mp = {n: n + tag for n in names}
                         body = [clone_stmt(x) for x in h.body if not isinstance(x, C.CReturn)]
+                        tail = clone_stmt(ret) if has_value else None
+                        # by-reference parameters: the argument is &v and the helper only ever writes *p
+                        byref = {}
+                        for (pt, pn), a in zip(h.params, call.args):
+                            if pt.count('*') >= 1 and _is_call(a, ('addr',)) and isinstance(a.args[0], ast.Name):
+                                uses = [n for x in _all(body + ([tail] if tail else [])) for e in _stmt_exprs(x) for n in ast.walk(e) if isinstance(n, ast.Name) and n.id == pn]
+                                derefs = [n for x in _all(body + ([tail] if tail else [])) for e in _stmt_exprs(x) for n in ast.walk(e) if _is_call(n, ('deref',)) and isinstance(n.args[0], ast.Name) and n.args[0].id == pn]
+                                if len(uses) == len(derefs):
+                                    byref[pn] = a.args[0].id
 
                         class Ren(ast.NodeTransformer):
+                            def visit_Call(self, n):
+                                if _is_call(n, ('deref',)) and isinstance(n.args[0], ast.Name) and n.args[0].id in byref:
+                                    return ast.copy_location(ast.Name(id=byref[n.args[0].id], ctx=ast.Load()), n)
+                                return self.generic_visit(n)
+
                             def visit_Name(self, n):
                                 return ast.copy_location(ast.Name(id=mp.get(n.id, n.id), ctx=n.ctx), n)
-                        for x in _all(body):
+                        for x in list(_all(body)) + ([tail] if tail else []):
                             if isinstance(x, C.CDecl):
                                 x.name = mp.get(x.name, x.name)
                             for holder, attr in _holders(x):
                                 e = getattr(holder, attr)
                                 if isinstance(e, ast.AST):
                                     setattr(holder, attr, Ren().visit(e))
-                        for (pt, pn), a in zip(h.params, st.expr.args):
+                        for (pt, pn), a in zip(h.params, call.args):
+                            if pn in byref:
+                                continue
                             out.append(C.CDecl(pt.rstrip('*').strip(), mp[pn], pt.count('*'), a, st.line))
                         out.extend(body)
+                        if kind == 'value':
+                            if isinstance(st, C.CDecl):
+                                st.init = tail.value
+                            else:
+                                st.value = tail.value
+                            out.append(st)
                         continue
                 out.append(st)
             return out
@@ -653,78 +690,146 @@ class Walk:
 
 def carve(f):
     """double *w = malloc(T*sizeof..); double *a = w; double *b = a + s0; ... free(w);   with w used for nothing else and the pieces
-    never re-pointed:  every piece its own allocation of the size the carving gave it (the last one what is left of T)"""
-    top = f.body
-    allocs = {st.name: st for st in top if isinstance(st, C.CDecl) and st.pointer and _is_call(st.init, ('malloc',))}
+    never re-pointed:  every piece its own allocation of the size the carving gave it (the last one what is left of T).  The pieces
+    may also be handed out by a cursor  (double *next = w;  a = next; next += s0;  b = next; next += s1; ...): the top-level
+    statements are evaluated in order, every pointer derived from w holding its offset into w; a pointer defined once is a piece
+    (one that only names another piece is that piece), a pointer defined more than once is a cursor and must not be used for
+    anything but the carving."""
+    allocs = {st.name: st for st in f.body if isinstance(st, C.CDecl) and st.pointer and _is_call(st.init, ('malloc',))}
     done = 0
     for wname, wst in list(allocs.items()):
-        pieces = []
-        offs = {wname: Rat.const(0)}
-        ok = True
-        for st in top:
-            if isinstance(st, C.CDecl) and st.pointer and st.init is not None and st is not wst and not _is_call(st.init, ('malloc',)):
-                names = {n.id for n in ast.walk(st.init) if isinstance(n, ast.Name)}
-                base = [n for n in names if n in offs]
-                if not base:
-                    continue
-                e = st.init
-                try:
-                    if isinstance(e, ast.Name):
-                        off = offs[e.id]
-                    elif isinstance(e, ast.BinOp) and isinstance(e.op, ast.Add) and isinstance(e.left, ast.Name) and e.left.id in offs:
-                        off = offs[e.left.id] + Translator().tr(e.right)
-                    else:
-                        ok = False
-                        break
-                except AlgebraError:
-                    ok = False
-                    break
-                offs[st.name] = off
-                pieces.append((st, off))
-        if not ok or not pieces:
+        top = f.body
+        if wst not in top:
             continue
-        names = {st.name for st, _ in pieces}
-        # the workspace and the pieces are never re-pointed, the workspace is only carved and freed
+        # definitions of every pointer, anywhere
+        ndefs = {}
         for st in f.walk():
-            if isinstance(st, C.CAssign) and isinstance(st.target, ast.Name) and st.target.id in names | {wname}:
-                ok = False
+            if isinstance(st, C.CDecl) and st.pointer and st.init is not None:
+                ndefs[st.name] = ndefs.get(st.name, 0) + 1
+            if isinstance(st, C.CAssign) and isinstance(st.target, ast.Name):
+                ndefs[st.target.id] = ndefs.get(st.target.id, 0) + 1
+            if isinstance(st, C.CFor):
+                for part in (st.init, st.step):
+                    if isinstance(part, C.CAssign) and isinstance(part.target, ast.Name):
+                        ndefs[part.target.id] = ndefs.get(part.target.id, 0) + 1
             for e in _stmt_exprs(st):
                 for n in ast.walk(e):
-                    if _is_call(n, ('postinc', 'postdec')) and isinstance(n.args[0], ast.Name) and n.args[0].id in names | {wname}:
+                    if _is_call(n, ('postinc', 'postdec', 'addr')) and isinstance(n.args[0], ast.Name):
+                        ndefs[n.args[0].id] = ndefs.get(n.args[0].id, 0) + 2
+        ptr_decls = {st.name for st in f.walk() if isinstance(st, C.CDecl) and st.pointer and not st.array}
+        offs = {wname: Rat.const(0)}          # current offset of every pointer into w
+        carving = []                          # top-level statements that only carve
+        piece_def = {}                        # piece name -> (defining statement, offset)
+        ok = True
+
+        def ptr_value(e):
+            """offset of a pointer expression into w, None when it does not point into w"""
+            if isinstance(e, ast.Name):
+                return offs.get(e.id)
+            if isinstance(e, ast.BinOp) and isinstance(e.op, (ast.Add, ast.Sub)) and isinstance(e.left, ast.Name) and e.left.id in offs:
+                d = Translator().tr(e.right)
+                return offs[e.left.id] + d if isinstance(e.op, ast.Add) else offs[e.left.id] - d
+            if any(isinstance(n, ast.Name) and n.id in offs for n in ast.walk(e)):
+                raise AlgebraError('pointer expression')
+            return None
+        try:
+            for st in top:
+                if st is wst:
+                    continue
+                if isinstance(st, C.CDecl) and st.pointer and not st.array and st.init is not None and not _is_call(st.init, ('malloc',)):
+                    off = ptr_value(st.init)
+                    if off is not None:
+                        offs[st.name] = off
+                        carving.append(st)
+                        if ndefs.get(st.name, 0) == 1:
+                            piece_def[st.name] = (st, off)
+                    continue
+                if isinstance(st, C.CAssign) and isinstance(st.target, ast.Name) and st.target.id in ptr_decls:
+                    nm = st.target.id
+                    if st.op == '=':
+                        off = ptr_value(st.value)
+                        if off is None:
+                            if nm in offs:
+                                ok = False
+                                break
+                            continue
+                    elif st.op in ('+=', '-=') and nm in offs:
+                        d = Translator().tr(st.value)
+                        off = offs[nm] + d if st.op == '+=' else offs[nm] - d
+                    elif nm in offs:
                         ok = False
-            uses_w = [e for e in _stmt_exprs(st) for n in ast.walk(e) if isinstance(n, ast.Name) and n.id == wname]
-            if uses_w and st is not wst and not any(st is p for p, _ in pieces) and not (isinstance(st, C.CExpr) and _is_call(st.expr, ('free',)) and C.unparse(st.expr.args[0]) == wname):
-                ok = False
-        if not ok:
+                        break
+                    else:
+                        continue
+                    offs[nm] = off
+                    carving.append(st)
+                    if ndefs.get(nm, 0) == 1:
+                        piece_def[nm] = (st, off)
+                    continue
+        except AlgebraError:
+            ok = False
+        if not ok or not piece_def:
+            continue
+        derived = set(offs) - {wname}
+        cursors = {n for n in derived if n not in piece_def}
+        # uses outside the carving statements
+        used = {}
+        for st in f.walk():
+            if any(st is c for c in carving) or st is wst:
+                continue
+            if isinstance(st, C.CExpr) and _is_call(st.expr, ('free',)) and C.unparse(st.expr.args[0]) == wname:
+                continue
+            for e in _stmt_exprs(st):
+                for n in ast.walk(e):
+                    if isinstance(n, ast.Name) and (n.id in derived or n.id == wname):
+                        used[n.id] = used.get(n.id, 0) + 1
+        if wname in used or any(c in used for c in cursors):
+            continue
+        # a carving statement may read only w, cursors and pieces (through ptr_value) - its right-hand side was fully evaluated above
+        pieces = sorted(((nm, st, off) for nm, (st, off) in piece_def.items() if nm in used), key=lambda t: (_at(t[2], 3) or 0, _at(t[2], 7) or 0))
+        pure_alias = [nm for nm in piece_def if nm not in used]
+        if not pieces:
             continue
         try:
             total = Translator().tr(wst.init.args[0]) / Rat.atom('SIZEOF')
         except AlgebraError:
             continue
         sizes = []
-        for k, (st, off) in enumerate(pieces):
-            nxt = pieces[k + 1][1] if k + 1 < len(pieces) else total
+        for k, (nm, st, off) in enumerate(pieces):
+            nxt = pieces[k + 1][2] if k + 1 < len(pieces) else total
             sz = nxt - off
             val = _at(sz, 3)
             if val is None or val <= 0 or not (_at(sz, 7) or 0) > 0:
                 ok = False
             sizes.append(sz)
-        if not ok or not pieces[0][1].is_zero():
+        if not ok or not pieces[0][2].is_zero():
             continue
-        for (st, off), sz in zip(pieces, sizes):
-            st.init = ast.Call(func=ast.Name(id='malloc', ctx=ast.Load()),
-                               args=[ast.BinOp(left=rat_to_ast(sz), op=ast.Mult(), right=ast.Name(id='SIZEOF', ctx=ast.Load()))], keywords=[])
+        new_alloc = {}
+        for (nm, st, off), sz in zip(pieces, sizes):
+            new_alloc[id(st)] = ast.Call(func=ast.Name(id='malloc', ctx=ast.Load()),
+                                         args=[ast.BinOp(left=rat_to_ast(sz), op=ast.Mult(), right=ast.Name(id='SIZEOF', ctx=ast.Load()))], keywords=[])
         new_top = []
         for st in top:
             if st is wst:
                 continue
+            if id(st) in new_alloc:
+                if isinstance(st, C.CDecl):
+                    st.init = new_alloc[id(st)]
+                else:
+                    st.value = new_alloc[id(st)]
+                new_top.append(st)
+                continue
+            if any(st is c for c in carving):
+                # a cursor step, a cursor / alias declaration: nothing is left of it
+                continue
+            if isinstance(st, C.CDecl) and st.pointer and st.init is None and (st.name in cursors or st.name in pure_alias):
+                continue
             if isinstance(st, C.CExpr) and _is_call(st.expr, ('free',)) and C.unparse(st.expr.args[0]) == wname:
-                for p, _ in pieces:
-                    new_top.append(C.CExpr(ast.Call(func=ast.Name(id='free', ctx=ast.Load()), args=[ast.Name(id=p.name, ctx=ast.Load())], keywords=[]), st.line))
+                for nm, _st, _off in pieces:
+                    new_top.append(C.CExpr(ast.Call(func=ast.Name(id='free', ctx=ast.Load()), args=[ast.Name(id=nm, ctx=ast.Load())], keywords=[]), st.line))
                 continue
             new_top.append(st)
         f.body[:] = new_top
-        top = f.body
         done += 1
     return done
 
